@@ -5,8 +5,9 @@ EXTENDS Naturals, Integers, TLC, Json
 VARIABLES par, pred
 vars == <<par, pred>>
 Init == /\ par \in [dir : {"req", "resp"}, limit : {4096, 8192, 65536}, delta : {0 - 2000, 0 - 600, 0 - 2, 0, 2, 100, 2000, 5000, 70000},
-                    where : {"line", "onefield", "manyfields", "both"}, arrival : {"oneshot", "chunks", "splitAtLimit"}]
+                    where : {"line", "onefield", "manyfields", "both", "folded"}, arrival : {"oneshot", "chunks", "splitAtLimit"}]
         /\ (par.dir = "resp" => par.where \notin {"line", "both"})
+        \* "folded": the bytes are obs-folds with long runs of blanks - the head is over the limit as received, far below it once unfolded
         /\ pred = "?"
 \* request targets longer than MAX_URL (8 KiB) are refused on their own
 Predict == IF par.where \in {"line", "both"} /\ par.limit > 8192 THEN "any" ELSE IF par.delta >= 100 THEN "reject" ELSE IF par.delta <= 0 - 600 THEN "pass" ELSE "any"
